@@ -5,6 +5,7 @@ import (
 	"math/rand"
 	"sort"
 	"strings"
+	"time"
 
 	"github.com/advancedclimatesystems/gonnx"
 	"github.com/advancedclimatesystems/gonnx/onnx"
@@ -165,6 +166,9 @@ func buildFxModelD(op string, fx fixture, weightsFrom int, defaults bool) *fxMod
 		g.Output = append(g.Output, &onnx.ValueInfoProto{Name: o})
 	}
 	m.outNames = outs
+	if ghostOutput { // a declared graph output that no node produces: every Run fails while collecting the outputs
+		g.Output = append(g.Output, &onnx.ValueInfoProto{Name: "never_produced"})
+	}
 	g.Node = append(pre, node)
 	if defaults {
 		// every other model with defaults lists them BEFORE the required inputs in graph.input
@@ -198,6 +202,8 @@ func buildFxModelD(op string, fx fixture, weightsFrom int, defaults bool) *fxMod
 	}
 	return m
 }
+
+var ghostOutput = false
 
 // two nodes of one operator type with different attributes in one graph (both orders): what one node's
 // Init / Apply leaves behind may not change what the other computes -- on this Run, a later Run, or
@@ -275,15 +281,39 @@ func outSnap(out gonnx.Tensors, err error, names []string) string {
 	return strings.Join(ss, " | ")
 }
 
+// runRec: one Run under recover() and under a deadline -- a Run that does not return (a lock an
+// earlier failing Run never released, a wait for a goroutine that never finishes) is reported like a
+// panic, with an error text saying so; the goroutine stuck in it is left behind
+var runDeadline = 120 * time.Second
+
 func runRec(m *gonnx.Model, in gonnx.Tensors) (out gonnx.Tensors, err error, panicked bool) {
-	defer func() {
-		if r := recover(); r != nil {
-			panicked = true
-			err = fmt.Errorf("panic: %v", r)
-		}
+	type res struct {
+		out gonnx.Tensors
+		err error
+		pan bool
+	}
+	ch := make(chan res, 1)
+	go func() {
+		defer func() {
+			if r := recover(); r != nil {
+				ch <- res{nil, fmt.Errorf("panic: %v", r), true}
+			}
+		}()
+		o, e := m.Run(in)
+		ch <- res{o, e, false}
 	}()
-	out, err = m.Run(in)
-	return
+	tm := time.NewTimer(runDeadline)
+	defer tm.Stop()
+	select {
+	case r := <-ch:
+		return r.out, r.err, r.pan
+	case <-tm.C:
+		d := runDeadline
+		if runDeadline > 3*time.Second {
+			runDeadline = 3 * time.Second // one hang is a violation already: later ones are not waited for as long
+		}
+		return nil, fmt.Errorf("HUNG: Run did not return within %v", d), true
+	}
 }
 
 // the operator-level generators whose cases are re-used for effect snapshots
@@ -333,7 +363,7 @@ func genC02(dir, tier string, seed int64) {
 	meta.GoOnly = append(meta.GoOnly, effectsAll)
 
 	// ---- stream 2: histories of Runs on one Model vs a fresh Model ----
-	hist := goOnlyResult{Stream: "C02_histories", Rule: "single-node models from every fixture, and the same node reading every tensor through an identity-like node (a one-input Concat or an Expand to the tensor's own shape) (trailing inputs as initializers: weights, biases, initial states, axes, shapes; each also in the variant where those initializers are declared graph inputs, i.e. defaults that some calls of the history override with other values and other calls leave out) + two-node models (LSTM / GRU with default and with explicit activations, two Conv nodes whose dilated kernels have one shape; both orders) + the loadable sample models: histories of 2..6 Runs on ONE Model (same input objects re-used, the same objects refilled in place with other contents -- inputs and overriding weights alike --, fresh copies, interleaved failing calls: missing input, wrong rank, an input of another element type); every Run compared bit for bit with the same call on a freshly loaded Model AND with the first result ever observed for these input values; caller tensors and Model parameters (through the verif hook) snapshotted before/after every Run", Violations: []string{}}
+	hist := goOnlyResult{Stream: "C02_histories", Rule: "single-node models from every fixture, and the same node reading every tensor through an identity-like node (a one-input Concat or an Expand to the tensor's own shape) (trailing inputs as initializers: weights, biases, initial states, axes, shapes; each also in the variant where those initializers are declared graph inputs, i.e. defaults that some calls of the history override with other values and other calls leave out) + two-node models (LSTM / GRU with default and with explicit activations, two Conv nodes whose dilated kernels have one shape; both orders) + the loadable sample models: histories of 2..6 Runs on ONE Model (same input objects re-used, the same objects refilled in place with other contents -- inputs and overriding weights alike --, fresh copies, interleaved failing calls: missing input, wrong rank, an input of another element type; one fixture model in three also in a graph that declares an output no node produces, so that every Run fails while the outputs are collected; every Run under a deadline of 120 s -- a Run that does not return is a violation); every Run compared bit for bit with the same call on a freshly loaded Model AND with the first result ever observed for these input values; caller tensors and Model parameters (through the verif hook) snapshotted before/after every Run", Violations: []string{}}
 	nHist := 2
 	if tier == "thorough" {
 		nHist = 120
@@ -367,6 +397,14 @@ func genC02(dir, tier string, seed int64) {
 					models = append(models, m)
 				}
 				passThrough = ""
+			}
+			if nin >= 1 && len(models)%3 == 0 { // Runs that fail at the very end, while the outputs are collected
+				ghostOutput = true
+				if m := buildFxModel(n, f, 1); m != nil {
+					m.op = n + " in a graph that declares an output no node produces"
+					models = append(models, m)
+				}
+				ghostOutput = false
 			}
 		}
 	}
